@@ -109,10 +109,16 @@ static int print_s(void (*printchar_handler)(void *d, int c),
 {
     int len;
 
-    len = (int)strlen(str);
     if (ops & OPS_PREC_IS_GIVEN)
     {
-        len = MIN(max_len, len);
+        /* with a precision the array needs no terminator: look at no more
+         * than max_len characters */
+        for (len = 0; (len < max_len) && str[len]; ++len)
+            ;
+    }
+    else
+    {
+        len = (int)strlen(str);
     }
 
     return print_sn(printchar_handler, printchar_data, str, len, width, ops);
